@@ -163,8 +163,11 @@ def run_verus_unit(u, scratch, tier):
     asm = Assembler(scratch.repo, u.path)
     vdir = os.path.join(scratch.dir, 'verus')
     os.makedirs(vdir, exist_ok=True)
+    kf_ids = sorted(set(re.findall(r'//\s*KF:(\w+)', open(u.path).read())))
+    open_ids = open_finding_ids()
+    not_open = [k for k in kf_ids if k not in open_ids]
     try:
-        text = asm.assemble()
+        text = asm.assemble(drop_kf=not_open)
     except AnchorLost as e:
         return [Outcome(u.name, u.name + '::*', 'undecided', reason='anchor-lost: %s' % e, backend='verus', attempt=attempt)], info
     except (UnitSyntax, Exception) as e:
@@ -233,10 +236,29 @@ def run_verus_unit(u, scratch, tier):
     if not any(o.status == 'fail' for o in outs) and npass < asm.meta['min_obligations']:
         outs.append(Outcome(u.name, u.name + '::*', 'undecided', backend='verus', attempt=attempt,
                             reason='vacuous: %d obligations discharged, unit declares at least %d' % (npass, asm.meta['min_obligations'])))
+    # known findings carved out of this unit (lines marked `// KF:<ID>`): re-run without the carve-out; the
+    # obligation is expected to fail (-> KNOWN-FINDING line); if it no longer fails the defect has disappeared
+    for fid in [k for k in kf_ids if k in open_ids]:
+        asm3 = Assembler(scratch.repo, u.path)
+        try:
+            ftext = asm3.assemble(drop_kf=not_open + [fid])
+        except Exception as e:
+            continue
+        fpath = os.path.join(vdir, '%s_finding_%s.rs' % (u.name, fid))
+        open(fpath, 'w').write(ftext)
+        fres = V.run_verus(fpath, timeout, extra)
+        fc = V.classify(fres, ftext)
+        if fc['status'] == 'fail':
+            names = sorted(set(f['fn'] for f in fc['failed']))
+            outs.append(Outcome(u.name, '%s::finding_%s' % (u.name, fid), 'known', backend='verus/z3', label='proved', finding=fid,
+                                attempt=attempt, reason='without the carve-out: ' + ', '.join(names) + ' fail(s)'))
+        elif fc['status'] == 'pass':
+            outs.append(Outcome(u.name, '%s::finding_%s' % (u.name, fid), 'pass', backend='verus/z3', label='proved', finding=fid,
+                                attempt=True, reason='finding %s no longer reproduces (unit verifies without the carve-out)' % fid))
     # vacuity canary: assert(false) at the head of every function under contract and every loop body must FAIL
     if not any(o.status == 'fail' for o in outs):
         asm2 = Assembler(scratch.repo, u.path)
-        ctext = asm2.assemble(canary=True)
+        ctext = asm2.assemble(canary=True, drop_kf=not_open)
         if asm2.canaries:
             cpath = os.path.join(vdir, u.name + '_canary.rs')
             open(cpath, 'w').write(ctext)
